@@ -220,7 +220,7 @@ func updateMinDistance(x, a, b Point, minDist s1.ChordAngle, alwaysUpdate bool) 
 
 	// Otherwise the minimum distance is to one of the endpoints.
 	xa2, xb2 := (x.Sub(a.Vector)).Norm2(), x.Sub(b.Vector).Norm2()
-	dist := s1.ChordAngle(math.Min(xa2, xb2))
+	dist := s1.ChordAngleFromSquaredLength(math.Min(xa2, xb2))
 	if !alwaysUpdate && dist >= minDist {
 		return minDist, false
 	}
